@@ -54,7 +54,7 @@ PROP = dict(
 
 THEOREMS = ["Wtf.C11." + t for t in (
     "discipline", "lru_ops_atomic", "discipline_exceptions_documented", "mutex", "lock_state", "linearizable", "lru_readers_pure",
-    "linearizable_lru", "cached_hits_agree", "checker_sound", "search_writes_nothing", "search_alone", "search_torn_if_written",
+    "linearizable_lru", "cached_hits_agree", "checker_correct", "search_writes_nothing", "search_alone", "search_torn_if_written",
     "counter_no_loss", "counter_total", "counter_total_inc", "counter_lossy")]
 
 TRACKED = ["LRUCache", "SearchCache", "Manager", "Counter", "Gauge", "Histogram", "Timer", "Collector", "PerformanceMonitor"]
@@ -209,10 +209,12 @@ def real_histories(ctx, hist_path, name):
                    dict(domain="linearize", case=idx, op_index=k, impl_line=a, model_line=b, ops=r.ops.get(idx, []), mismatching_cases=len(bad)))
     else:
         ctx.oblige("correspondence:%s" % name, "correspondence", True, "%d recorded histories: both checkers agree" % n)
-    for idx, v in rejected[:20]:
-        ctx.hit("lru-history-not-linearizable", "recorded LRU history is not linearizable (real-code spec: %s, Lean model: %s)" % v,
-                dict(kind="impl-counterexample", domain="linearize", case=idx, ops=r.ops[idx], verdicts=dict(real_code_as_spec=v[0], lean_model=v[1]),
-                     **{"class": "lru-history-not-linearizable"}))
+    for idx, v in reversed(rejected[:20]):
+        # a recorded history is the one finding that replays deterministically: put it first
+        ctx.hits.insert(0, dict(cls="lru-history-not-linearizable",
+                                what="recorded LRU history is not linearizable (real-code spec: %s, Lean model: %s)" % v,
+                                replay=dict(kind="impl-counterexample", domain="linearize", case=idx, ops=r.ops[idx],
+                                            verdicts=dict(real_code_as_spec=v[0], lean_model=v[1]), **{"class": "lru-history-not-linearizable"})))
     ctx.oblige("support:%s:every-recorded-history-linearizable" % name, "support", not rejected, "%d of %d rejected" % (len(rejected), n))
     if r.impl_rc != 0 or r.model_rc != 0:
         ctx.oblige("correspondence:%s:exit" % name, "correspondence", False, (r.impl_err + r.model_err)[-1500:])
